@@ -176,25 +176,36 @@ type verifySetup struct {
 
 func newVerifySetup(r *Rng, later bool, nclaims int) *verifySetup {
 	is := NewIssuer(r, 0)
-	c := randCred(r, r.Chance(30))
-	c.Issuer = is.did.String()
-	merklize.SetDocumentLoader(c.loader())
-	vc, err := c.W3C()
-	if err != nil {
-		panic(err)
-	}
-	o := randOpts(r)
-	if o != nil {
-		if o.SubjectPosition == "elsewhere" {
-			o.SubjectPosition = ""
+	var c *ACred
+	var vc *verifiable.W3CCredential
+	var claim *core.Claim
+	for try := 0; ; try++ {
+		// (some generated credentials cannot be turned into a claim - their attribute names a field they lack; the failed
+		// attempt stays part of the process's history, the set-up goes on with the next credential)
+		c = randCred(r, r.Chance(30))
+		c.Issuer = is.did.String()
+		merklize.SetDocumentLoader(c.loader())
+		var err error
+		vc, err = c.W3C()
+		if err != nil {
+			panic(err)
 		}
-		if o.MerklizedRootPosition == "Index" || c.SerAttr != "" {
-			o.MerklizedRootPosition = ""
+		o := randOpts(r)
+		if o != nil {
+			if o.SubjectPosition == "elsewhere" {
+				o.SubjectPosition = ""
+			}
+			if o.MerklizedRootPosition == "Index" || c.SerAttr != "" {
+				o.MerklizedRootPosition = ""
+			}
 		}
-	}
-	claim, err := runToCoreClaim(vc, o, c)
-	if err != nil {
-		panic(fmt.Sprintf("setup: ToCoreClaim: %v", err))
+		claim, err = runToCoreClaim(vc, o, c)
+		if err == nil {
+			break
+		}
+		if try > 20 {
+			panic(fmt.Sprintf("setup: ToCoreClaim: %v", err))
+		}
 	}
 	s := &verifySetup{is: is, c: c, vc: vc, claim: claim, later: later}
 	if later {
